@@ -20,12 +20,22 @@
 
 #include <string>
 
+#include <cstdlib>
+#include <cstdio>
+
 namespace bloc
 {
 
 std::string NumericExpression::unparse(Context& ctx) const
 {
   std::string str = Value::readableNumeric(*v.numeric());
+  /* 16 significant digits don't always identify the constant: then use 17 */
+  if (std::strtod(str.c_str(), nullptr) != *v.numeric())
+  {
+    char buf[32];
+    snprintf(buf, sizeof(buf), "%.17g", *v.numeric());
+    str.assign(buf);
+  }
   if (str.find('e') == std::string::npos && str.find('.') == std::string::npos)
     str.append(".0");
   return str;
